@@ -27,6 +27,12 @@ def sc_create(case, ctx):
         bins = gen.bins_frame(table, extra={"w": cells[0]["extra"]} if has_extra else None)
     else:
         bins = {c["name"]: gen.bins_frame(table, extra={"w": c["extra"]} if c["extra"] else None) for c in cells}
+    order = {"extra_first": ["w", "chrom", "start", "end"], "extra_mid": ["chrom", "w", "start", "end"]}.get(case.get("bincols"))
+    if order:                                                      # the standard columns do not come first
+        if isinstance(bins, dict):
+            bins = {k: (b[order] if "w" in b.columns else b) for k, b in bins.items()}
+        elif "w" in bins.columns:
+            bins = bins[order]
     if case.get("labels") == "offset":                            # the bin table(s) with shifted row labels as well
         for b in ([bins] if not isinstance(bins, dict) else bins.values()):
             b.index = b.index + 100
@@ -63,11 +69,19 @@ def sc_create(case, ctx):
         pb = gen.bins_frame(table)
         cooler.create_scool(path, pb, {nm: gen.pixels_frame([[0, 0, 9]]) for nm in case["prior_cells"]}, ordered=True,
                             symmetric_upper=symm)
-    if case.get("ordered", True):
-        cooler.create_scool(path, bins, pixels, ordered=True, symmetric_upper=symm, **kw)
-    else:
-        # the default of create_scool: every cell goes through unordered creation (temporary files, merge)
-        cooler.create_scool(path, bins, pixels, symmetric_upper=symm, mergebuf=case.get("mergebuf", 3), temp_dir=ctx.subdir(), **kw)
+    k2 = case.get("batch2_from", 0)
+    batches = [(cells, {})] if not (0 < k2 < len(cells)) else [(cells[:k2], {}), (cells[k2:], {"mode": "a"})]
+    for part, mkw in batches:
+        # (a second batch of cells is ADDED to the file in append mode)
+        pnames = [c["name"] for c in part]
+        pbins = bins if not isinstance(bins, dict) else {nm: bins[nm] for nm in pnames}
+        ppix = {nm: pixels[nm] for nm in pnames}
+        if case.get("ordered", True):
+            cooler.create_scool(path, pbins, ppix, ordered=True, symmetric_upper=symm, **kw, **mkw)
+        else:
+            # the default of create_scool: every cell goes through unordered creation (temporary files, merge)
+            cooler.create_scool(path, pbins, ppix, symmetric_upper=symm, mergebuf=case.get("mergebuf", 3), temp_dir=ctx.subdir(),
+                                **kw, **mkw)
     listed = [s[len("/cells/"):] if s.startswith("/cells/") else "?" + s for s in cooler.fileops.list_scool_cells(path)]
     out = []
     names = gen.CHROMNAMES
@@ -80,7 +94,7 @@ def sc_create(case, ctx):
             g = f["cells"][c["name"]]
             clr = cooler.Cooler(g) if case["open"] == "handle" else None
             raw = project.raw_collection(g, scale=scale)
-            item = {"name": c["name"], "raw": raw,
+            item = {"name": c["name"], "raw": raw, "last_batch": not (0 < k2 < len(cells)) or cells.index(c) >= k2,
                     "bins_addr": [_addr(g["bins"][k]) for k in ("chrom", "start", "end")],
                     "chroms_addr": [_addr(g["chroms"][k]) for k in ("name", "length")]}
             if clr is None:
